@@ -87,11 +87,11 @@ func c19ClassifyRest(t c19Case, tree, shape, literal string, sh c19ShResult, bas
 	baKept := len(baL) == 1 && baL[0] == literal
 
 	switch {
-	case extOn && c19HasExtOnlyComponent(shape) && (shNone && !baNone || nullglob && shKept && len(baL) == 0):
+	case extOn && c19HasExtOnlyComponent(shape) && (shKept || nullglob && len(shL) == 0):
 		// a path component whose only pattern characters are extglob
 		// operators is not treated as a pattern: the word is kept verbatim
-		// (even under nullglob when bash finds nothing) or the component
-		// is looked up literally, so nothing is found where bash has matches
+		// (even under nullglob) or the component is looked up literally, so
+		// the interpreter finds nothing; bash globs (its result differs)
 		return "extglob-only-component-not-globbed"
 	case extOn && strings.Contains(shape, "**(") && !baNone && c19Subset(c19Matches(shL, shNone), baL) && len(c19Matches(shL, shNone)) < len(baL):
 		// "*" followed by a "*(...)" group: the two stars are read as "**"
